@@ -4,14 +4,13 @@
    (ISO C 7.19.6.1 as used by lstrlib.c str_format) for %d %i %c %x %X %o %e %E %f %s with the
    flags - + space # 0, width and precision.  [go = true] is the implementation model: what
    strFormat (stringlib.go) + LNumber.Format/LString.Format/formatBytes (value.go) +
-   defaultFormat (utils.go) produce by delegating to Go's fmt.  Go's fmt is an oracle (stdlib); the
-   model records it as "C's printf except at the listed points", each point is a branch on [go]
-   below and nowhere else:
-     G1  %#x / %#X of 0 keeps the 0x prefix; with flag 0 the zero fill ignores the prefix width
-     G2  precision 0 and value 0 prints only padding: no sign for %+.0d, no "0" for %#.0o
-     G3  +/space are honoured by %x %X %o (undefined in C)
+   formatInteger (value.go) produce.  After the fix: commits of this property the integer
+   conversions and inf/nan are rendered by gopher-lua's own code following C; %e %E %f of finite
+   numbers and the padding of %s of a number still go through Go's fmt (an oracle, stdlib).  The
+   two dialects now differ at ONE point, a branch on [go] in [pad_str] and nowhere else:
      G4  flag 0 pads %s and %c with zeros (undefined in C)
-     G5  infinities and NaN print as +Inf/-Inf/NaN (C: inf/-inf/nan, INF/NAN for %E)
+   (G1 %#x of 0 / prefix width, G2 precision 0 value 0, G3 +/space on %x %X %o, G5 +Inf/NaN were
+   deviations of Go's fmt; they are repaired in the code and gone from the model.)
    [format go f args] is the whole call: literal bytes, %%, directives consuming one argument
    each, error when an argument is missing, surplus arguments ignored.
    Numbers arrive as exact dyadics: NFin neg m e = (-1)^neg * m * 2^e. *)
@@ -22,7 +21,9 @@ Inductive num :=
 | NInf (neg : bool)
 | NNaN.
 
-Inductive farg := ANum (n : num) | AStr (s : bytes).
+(* AConv s c: the string s given where it may have to be converted: c is what tonumber(s) yields on
+   the real code (string -> number is property C16's model; here it is an oracle) *)
+Inductive farg := ANum (n : num) | AStr (s : bytes) | AConv (s : bytes) (c : option num).
 
 Record dspec := mkD {
   f_minus : bool; f_plus : bool; f_space : bool; f_sharp : bool; f_zero : bool;
@@ -105,9 +106,7 @@ Definition fmt_signed (go : bool) (sp : dspec) (z : Z) : bytes :=
   let a := Z.abs z in
   match d_prec sp with
   | Some p =>
-    if (p =? 0) && (a =? 0) then
-      if go then spaces (owidth (d_width sp))                               (* G2 *)
-      else pad (f_minus sp) (d_width sp) sign
+    if (p =? 0) && (a =? 0) then pad (f_minus sp) (d_width sp) sign
     else pad (f_minus sp) (d_width sp) (sign ++ zext p (digits 10 false a))
   | None => pad_num sp true sign (digits 10 false a)
   end.
@@ -119,25 +118,20 @@ Definition two63 : Z := 9223372036854775808.
 Definition oct_fix (on : bool) (ds : bytes) : bytes :=
   if on then match ds with 48 :: _ => ds | _ => 48 :: ds end else ds.
 
-(* u already reduced to [0, 2^64) *)
+(* u already reduced to [0, 2^64); + and space do not apply to unsigned conversions *)
 Definition fmt_unsigned (go : bool) (sp : dspec) (base : Z) (upper : bool) (u : Z) : bytes :=
-  let sign := if go then sign_of sp false else [] in                        (* G3 *)
-  let hexpre := if (base =? 16) && f_sharp sp && (go || negb (u =? 0))      (* G1 *)
+  let hexpre := if (base =? 16) && f_sharp sp && negb (u =? 0)
                 then [48; if upper then 88 else 120] else [] in
   let oct := oct_fix ((base =? 8) && f_sharp sp) in
   match d_prec sp with
   | Some p =>
-    if (p =? 0) && (u =? 0) then
-      if go then spaces (owidth (d_width sp))                               (* G2 *)
-      else pad (f_minus sp) (d_width sp) (oct [])
-    else pad (f_minus sp) (d_width sp) (sign ++ hexpre ++ oct (zext p (digits base upper u)))
+    if (p =? 0) && (u =? 0) then pad (f_minus sp) (d_width sp) (oct [])
+    else pad (f_minus sp) (d_width sp) (hexpre ++ oct (zext p (digits base upper u)))
   | None =>
     if f_zero sp && negb (f_minus sp) then
       let ds := digits base upper u in
-      let pre := if go then sign else sign ++ hexpre in                     (* G1 *)
-      let filled := oct (zeros (owidth (d_width sp) - len pre - len ds) ++ ds) in
-      sign ++ hexpre ++ filled
-    else pad (f_minus sp) (d_width sp) (sign ++ hexpre ++ oct (digits base upper u))
+      hexpre ++ oct (zeros (owidth (d_width sp) - len hexpre - len ds) ++ ds)
+    else pad (f_minus sp) (d_width sp) (hexpre ++ oct (digits base upper u))
   end.
 
 (* ---------- floats: exact decimal expansion of m * 2^e, round half even ---------- *)
@@ -181,15 +175,9 @@ Definition fmt_float (go : bool) (sp : dspec) (is_e upper : bool) (n : num) : by
     pad_num sp true (sign_of sp neg)
             (if is_e then e_digits upper (f_sharp sp) p m e else f_digits (f_sharp sp) p m e)
   | NInf neg =>
-    if go then                                                              (* G5 *)
-      pad (f_minus sp) (d_width sp)
-          ((if neg then [45] else if f_space sp && negb (f_plus sp) then [32] else [43]) ++ [73;110;102])
-    else pad (f_minus sp) (d_width sp)
-             (sign_of sp neg ++ if upper then [73;78;70] else [105;110;102])
+    pad (f_minus sp) (d_width sp) (sign_of sp neg ++ if upper then [73;78;70] else [105;110;102])
   | NNaN =>
-    if go then pad (f_minus sp) (d_width sp) (sign_of sp false ++ [78;97;78])   (* G5 *)
-    else pad (f_minus sp) (d_width sp)
-             (sign_of sp false ++ if upper then [78;65;78] else [110;97;110])
+    pad (f_minus sp) (d_width sp) (sign_of sp false ++ if upper then [78;65;78] else [110;97;110])
   end.
 
 (* ---------- argument conversion ---------- *)
@@ -246,6 +234,19 @@ Definition fmt_dir (go : bool) (sp : dspec) (a : farg) : option bytes :=
       Some (pad_str go sp (match d_prec sp with
                            | Some p => firstn (Z.to_nat p) s | None => s end))
     else None
+  | AConv _ _ => None          (* resolved to ANum / AStr before (see [resolve]) *)
+  end.
+
+Definition verb_in (v : Z) (l : list Z) : bool := existsb (Z.eqb v) l.
+
+(* strFormat: a numeric conversion takes L.CheckNumber of its argument (a number, or a string that
+   converts to one; anything else raises); %s takes the string itself.  None = the call raises. *)
+Definition numeric_verb (v : Z) : bool := verb_in v [100;105;99;120;88;111;101;69;102].
+
+Definition resolve (sp : dspec) (a : farg) : option farg :=
+  match a with
+  | AConv s c => if numeric_verb (d_verb sp) then option_map ANum c else Some (AStr s)
+  | _ => Some a
   end.
 
 (* ---------- the format string ---------- *)
@@ -317,10 +318,14 @@ Fixpoint run_items (go : bool) (its : list item) (args : list farg) : fres :=
     match args with
     | [] => FErr                                    (* bad argument #n to 'format' (no value) *)
     | a :: args' =>
-      match fmt_dir go sp a with
-      | None => FUnsupported
-      | Some o1 =>
-        match run_items go r args' with FOk o => FOk (o1 ++ o) | x => x end
+      match resolve sp a with
+      | None => FErr                                (* bad argument #n (number expected, got string) *)
+      | Some a' =>
+        match fmt_dir go sp a' with
+        | None => FUnsupported
+        | Some o1 =>
+          match run_items go r args' with FOk o => FOk (o1 ++ o) | x => x end
+        end
       end
     end
   end.
@@ -336,53 +341,25 @@ Definition format (go : bool) (f : bytes) (args : list farg) : fres :=
     (if existsb (fun i => match i with IBad => true | _ => false end) its then FUnsupported else FErr)
   else run_items go its args.
 
-(* ---------- where C defines the directive, and where Go is known to differ ---------- *)
-Definition verb_in (v : Z) (l : list Z) : bool := existsb (Z.eqb v) l.
-
-Definition is_zero_val (a : farg) : bool :=
-  match a with ANum n => to_int64 n =? 0 | _ => false end.
-
-Definition is_special (a : farg) : bool :=
-  match a with ANum (NInf _) | ANum NNaN => true | _ => false end.
-
+(* ---------- where C defines the directive ---------- *)
 Definition arg_in_range (sp : dspec) (a : farg) : bool :=
   match a with
   | ANum n =>
     if verb_in (d_verb sp) [100;105;99;120;88;111]
     then match trunc_num n with Some z => in_int64 z | None => false end
     else true
-  | AStr _ => true
+  | _ => true
   end.
 
-(* ISO C: '#' undefined for d i c s; '0' undefined for c s; + and space only for signed
-   conversions; precision undefined for c; the (long) cast undefined outside its range *)
+(* ISO C: '#' undefined for d i c s; '0' undefined for c s; precision undefined for c; the (long)
+   cast undefined outside its range.  '+' and ' ' are defined everywhere: they act on signed
+   conversions only. *)
 Definition c_defined (sp : dspec) (a : farg) : bool :=
   let v := d_verb sp in
   arg_in_range sp a &&
   (if verb_in v [100;105] then negb (f_sharp sp)
-   else if verb_in v [120;88;111] then negb (f_plus sp) && negb (f_space sp)
-   else if v =? 99 then negb (f_sharp sp) && negb (f_zero sp) && negb (f_plus sp) && negb (f_space sp)
+   else if verb_in v [120;88;111] then true
+   else if v =? 99 then negb (f_sharp sp) && negb (f_zero sp)
                         && match d_prec sp with None => true | _ => false end
-   else if v =? 115 then negb (f_sharp sp) && negb (f_zero sp) && negb (f_plus sp) && negb (f_space sp)
+   else if v =? 115 then negb (f_sharp sp) && negb (f_zero sp)
    else verb_in v [101;69;102]).
-
-(* the open deviations of Go's fmt from C inside the defined domain *)
-Definition dev_sharp_hex (sp : dspec) (a : farg) : bool :=             (* C15-8 *)
-  verb_in (d_verb sp) [120;88] && f_sharp sp &&
-  (is_zero_val a
-   || (f_zero sp && negb (f_minus sp) && match d_prec sp with None => true | _ => false end)).
-
-Definition dev_prec0_zero (sp : dspec) (a : farg) : bool :=             (* C15-12 *)
-  match d_prec sp with
-  | Some 0 =>
-    is_zero_val a &&
-    ((verb_in (d_verb sp) [100;105] && (f_plus sp || f_space sp))
-     || ((d_verb sp =? 111) && f_sharp sp))
-  | _ => false
-  end.
-
-Definition dev_inf_nan (sp : dspec) (a : farg) : bool :=                (* C15-11 *)
-  verb_in (d_verb sp) [101;69;102] && is_special a.
-
-Definition known_dev (sp : dspec) (a : farg) : bool :=
-  dev_sharp_hex sp a || dev_prec0_zero sp a || dev_inf_nan sp a.
